@@ -910,36 +910,34 @@ pub fn expand_self_rule(cx: &Cx, rep: &mut Report) {
     let Some(outer) = find_fn(ix, &|f| f.self_ty.is_none() && sig_text(f).contains("to:&Type") && sig_text(f).ends_with("->T")) else {
         rep.fail("unanalysable", "expand_self", "not-found", "(&T, to: &Type) -> T not found", "syn_utils.rs", json!({})); return;
     };
-    let mut nested: Option<syn::ImplItemFn> = None;
-    for s in &outer.block.stmts { if let syn::Stmt::Item(syn::Item::Impl(im)) = s { for it in &im.items { if let syn::ImplItem::Fn(f) = it { if f.sig.ident.to_string().starts_with("visit_") { nested = Some(f.clone()); } } } } }
-    let Some(vf) = nested else { rep.fail("DM-expand-self", &outer.qual, "no-visitor", "the value is no longer rewritten by a syn visitor override", &site(&outer), json!({})); return; };
-    // the frame: a copy of the input is traversed with `to` as the replacement and returned
-    {
-        let ev = mk_ev(ix);
-        ev.open_at_top.replace(Some(outer.qual.clone()));
-        let outs = ev.call_fn(St::new(), &outer, None, vec![sym("Type", "input"), sym("Type", "to")]);
-        let ok = outs.len() == 1 && matches!(&outs[0].1, Flow::Val(Val::Sym { path, .. }) | Flow::Ret(Val::Sym { path, .. }) if path == "input") && notes(&outs[0].0).iter().any(|n| n.starts_with("mutcall ") && n.contains("visit_type_mut") && n.contains("$to") && n.contains("$input"));
-        rep.check(ok, "DM-expand-self", &outer.qual, "frame", &format!("the input is not traversed (as a copy) with the self type as replacement and returned: {:?} / {:?}", outs.iter().map(|(_, fl)| match fl { Flow::Val(v) | Flow::Ret(v) => v.short(), _ => "?".into() }).collect::<Vec<_>>(), outs.first().map(|o| notes(&o.0)).unwrap_or_default()), &site(&outer), json!({}));
-        rep.unanalysable(&outer.qual, &ev.unsupported.borrow());
-    }
-    let fd = Rc::new(FnDef { qual: format!("{}::{}", outer.qual, vf.sig.ident), self_ty: Some("ExpandSelfVisitor".into()), sig: vf.sig.clone(), block: vf.block.clone(), file: outer.file.clone(), line: vf.sig.ident.span().start().line, attrs: vec![], is_trait_impl: Some("VisitMut".into()) });
-    let ev = mk_ev(ix);
-    let outs = ev.call_fn(St::new(), &fd, Some(sym("ExpandSelfVisitor", "v")), vec![sym("Type", "i")]);
-    rep.unanalysable(&fd.qual, &ev.unsupported.borrow());
+    let mut nested: Option<(String, syn::ImplItemFn)> = None;
+    for s in &outer.block.stmts { if let syn::Stmt::Item(syn::Item::Impl(im)) = s { for it in &im.items { if let syn::ImplItem::Fn(f) = it { if f.sig.ident.to_string().starts_with("visit_") { nested = Some((crate::index::self_ty_name(&im.self_ty), f.clone())); } } } } }
+    let Some((vname, vf)) = nested else { rep.fail("DM-expand-self", &outer.qual, "no-visitor", "the value is no longer rewritten by a syn visitor override", &site(&outer), json!({})); return; };
+    let fd = Rc::new(FnDef { qual: format!("{vname}::{}", vf.sig.ident), self_ty: Some(vname.clone()), sig: vf.sig.clone(), block: vf.block.clone(), file: outer.file.clone(), line: vf.sig.ident.span().start().line, attrs: vec![], is_trait_impl: Some("VisitMut".into()) });
+    // the whole function is evaluated, the visitor override being reachable through the visitor value it builds: so the
+    // comparison is made against whatever that value holds (a `Self` parsed in place or kept in a field)
+    let mut ev = mk_ev(ix);
+    ev.extra_fns.insert(fd.qual.clone(), fd.clone());
+    ev.open_at_top.replace(Some(outer.qual.clone()));
+    let outs = ev.call_fn(St::new(), &outer, None, vec![sym("Type", "input"), sym("Type", "to")]);
+    rep.unanalysable(&outer.qual, &ev.unsupported.borrow());
     let (mut replaced, mut descended, mut bad) = (false, false, Vec::new());
-    for (st, _) in &outs {
+    for (st, fl) in &outs {
         let is_self = st.cond.iter().find(|(a, _)| a.contains("==quote(Self)")).map(|(_, b)| *b);
         let ns = notes(st);
-        let assigns = ns.iter().any(|n| n.starts_with("deref-assign $i := ") && n.contains("v.to"));
+        let assigns = ns.iter().any(|n| n.starts_with("deref-assign $input := ") && n.contains("$to"));
         let any_assign = ns.iter().any(|n| n.starts_with("deref-assign"));
         let descends = ns.iter().any(|n| n.starts_with(&format!("extcall {}", vf.sig.ident)));
+        let returns_input = matches!(fl, Flow::Val(Val::Sym { path, .. }) | Flow::Ret(Val::Sym { path, .. }) if path == "input");
+        if !returns_input { bad.push("the traversed copy of the input is not what is returned".to_string()); }
         match is_self {
             Some(true) => { if assigns && !descends { replaced = true; } else { bad.push(format!("on `Self`: replaced by the target: {assigns}, descends: {descends}")); } }
             Some(false) => { if descends && !any_assign { descended = true; } else { bad.push(format!("on another type: descends: {descends}, rewritten: {any_assign}")); } }
             None => bad.push("the visited type is not compared with `Self`".into()),
         }
     }
-    rep.check(replaced && descended && bad.is_empty(), "DM-expand-self", &fd.qual, "replace-or-descend", &format!("`Self` is not replaced by the self type exactly where it occurs (replaced: {replaced}, other types traversed: {descended}; {})", bad.join("; ")), &site(&fd), json!({}));
+    bad.sort(); bad.dedup();
+    rep.check(replaced && descended && bad.is_empty(), "DM-expand-self", &fd.qual, "replace-or-descend", &format!("`Self` is not replaced by the self type exactly where it occurs (replaced: {replaced}, other types traversed: {descended}; {})", bad.join("; ")), &site(&outer), json!({}));
 }
 
 /// DM-parse-single: the by-name lookup of a helper attribute - absent: nothing; once: parsed (`#[x]` alone = defaults,
